@@ -1305,6 +1305,29 @@ Proof.
     rewrite (v_root_of_inv st gs es ls SI), <- Hnode. apply in_map. exact Hin.
 Qed.
 
+(* the session invariant alone is kept by every run *)
+Lemma s2_step_sess_inv st gs es ls op : s2op_ok op -> Sess2Inv st gs es ls ->
+  exists gs' es', Sess2Inv (fst (s2_step g acc st op)) gs' es' ls.
+Proof.
+  intros Hop SI. destruct op as [j o now|j]; (destruct (nth_error (s2_hs st) j) as [y|] eqn:Hy;
+    [|cbn [s2_step]; rewrite Hy; cbn [fst]; exists gs, es; exact SI]);
+    (destruct (nth_error gs j) as [gj|] eqn:Hgj;
+      [|apply nth_error_None in Hgj; apply nth_error_Some_len in Hy; rewrite (si_len _ _ _ _ SI) in Hy; lia]).
+  - destruct Hop as [Ho Hnow].
+    destruct (s2_op_step st gs es ls j o now y gj SI Ho Hnow Hy Hgj) as (st1 & r & sz1 & l1 & y1 & v1 & Hs & SI1 & _).
+    rewrite Hs. cbn [fst]. eexists _, _. exact SI1.
+  - destruct (s2_flush_step st gs es ls j y gj SI Hy Hgj) as (st1 & e1 & es1 & y1 & Hs & SI1 & _).
+    rewrite Hs. cbn [fst]. eexists _, _. exact SI1.
+Qed.
+
+Lemma s2_run_sess_inv : forall ops st gs es ls, Forall s2op_ok ops -> Sess2Inv st gs es ls ->
+  exists gs' es', Sess2Inv (fst (s2_run g acc st ops)) gs' es' ls.
+Proof.
+  induction ops as [|op ops IH]; intros st gs es ls Hf SI; [exists gs, es; exact SI|].
+  inversion Hf as [|? ? Hop Hf']; subst. rewrite s2_run_cons_fst.
+  destruct (s2_step_sess_inv st gs es ls op Hop SI) as (gs1 & es1 & SI1). exact (IH _ gs1 es1 ls Hf' SI1).
+Qed.
+
 (* ================================================================ 7. the whole session: create k files ; any steps *)
 Lemma Forall2_compose {A B C} (P : A -> B -> Prop) (Q : B -> C -> Prop) (R : A -> C -> Prop) :
   forall la lb lc, Forall2 P la lb -> Forall2 Q lb lc -> (forall a b c, P a b -> Q b c -> In c lc -> R a c) -> Forall2 R la lc.
@@ -1431,3 +1454,124 @@ Proof.
   exists news. split; [exact R1|]. split; [exact Nm1|]. split; [exact Nm2|exact Hout1].
 Qed.
 End Sess2.
+
+(* ================================================================ 8. what is DURABLE (C14, with Model/FlushM.v) *)
+Section Durable.
+Variable g : geom.
+Hypothesis Hg : fixed_root_geom g.
+Variable acc : bool.
+
+Definition no_flush_step (op : s2op) : Prop := s2_flushes op = false.
+
+(* at the granularity of calls the durable image is the image the session had right after its LAST flush / drop step (or
+   the durable image it started with, when no such step occurred) *)
+Theorem s2_durable_cases : forall ops st dur,
+  (s2_durable g acc st dur ops = dur /\ Forall no_flush_step ops) \/
+  (exists n j, (n < length ops)%nat /\ nth_error ops n = Some (SFlush j) /\ Forall no_flush_step (skipn (S n) ops) /\
+               s2_durable g acc st dur ops = s2_im (fst (s2_run g acc st (firstn (S n) ops)))).
+Proof.
+  induction ops as [|op ops IH]; intros st dur; [left; split; [reflexivity|constructor]|].
+  cbn [s2_durable]. set (st1 := fst (s2_step g acc st op)).
+  destruct (IH st1 (if s2_flushes op then s2_im st1 else dur)) as [[E F]|(n & j & Hn & Hj & Hf & E)].
+  - destruct op as [i o now|i]; cbn [s2_flushes] in *.
+    + left. split; [exact E|]. constructor; [reflexivity|exact F].
+    + right. exists 0%nat, i. split; [cbn [length]; lia|]. split; [reflexivity|]. split; [exact F|].
+      rewrite E. cbn [firstn]. rewrite s2_run_cons_fst. reflexivity.
+  - right. exists (S n), j. split; [cbn [length]; lia|]. split; [exact Hj|]. split; [exact Hf|].
+    rewrite E. change (firstn (S (S n)) (op :: ops)) with (op :: firstn (S n) ops). rewrite s2_run_cons_fst. reflexivity.
+Qed.
+
+Lemma Forall_firstn_ {A} (P : A -> Prop) : forall n l, Forall P l -> Forall P (firstn n l).
+Proof. induction n as [|n IH]; intros [|a l] H; cbn [firstn]; try constructor; inversion H; subst; [assumption|apply IH; assumption]. Qed.
+
+(* C14: handle [i] is clean - its flush / drop has returned, so the image [s2_im st] is durable -; whatever calls on OTHER
+   handles, flushes and drops follow, the DURABLE image at the end (and, the hypotheses being closed under prefixes, at
+   every point in between) shows the file's node with the flushed entry, chain and content *)
+Theorem s2_flushed_durable ops st gs es ls i x gh dur :
+  Sess2Inv g st gs es ls -> nth_error (s2_hs st) i = Some x -> nth_error gs i = Some gh -> s2_dirty x = false ->
+  Forall s2op_ok ops -> Forall (not_op_on i) ops ->
+  In (hnode g (s2_im st) gh) (v_root (abs dur)) ->
+  In (hnode g (s2_im st) gh) (v_root (abs (s2_durable g acc st dur ops))).
+Proof.
+  intros SI Hx Hgh Hcl Hf Hn Hd. destruct (s2_durable_cases ops st dur) as [[E _]|(n & j & _ & _ & _ & E)]; rewrite E; [exact Hd|].
+  exact (proj1 (proj2 (s2_flushed_survives g Hg acc (firstn (S n) ops) st gs es ls i x gh SI Hx Hgh Hcl
+                         (Forall_firstn_ _ _ _ Hf) (Forall_firstn_ _ _ _ Hn)))).
+Qed.
+
+(* ---- the same through the write-back cache of Model/FlushM.v.  A device log REALISES the steps: one event list per step
+   whose writes take the image to the image after the step, with a device flush exactly as the last event of every
+   flush / drop step (Proofs/FlushProofs.flush_shape; Model/VolSession.flush_events is such a list) and no device flush
+   during a call on a handle *)
+Definition writes_only (evs : list dev_event) : Prop := forall e, In e evs -> exists o b, e = DWrite o b.
+
+Fixpoint log_realises (st : s2state) (ops : list s2op) (logs : list (list dev_event)) : Prop :=
+  match ops, logs with
+  | [], [] => True
+  | op :: r, evs :: lr =>
+    let st1 := fst (s2_step g acc st op) in
+    (exists ws, evs = ws ++ (if s2_flushes op then [DFlush] else []) /\ writes_only ws /\
+                img_same (apply_events (s2_im st) ws) (s2_im st1)) /\
+    log_realises st1 r lr
+  | _, _ => False
+  end.
+
+Lemma img_write_same im im' off bs : img_same im im' -> img_same (img_write im off bs) (img_write im' off bs).
+Proof.
+  intros H o. destruct (N.lt_ge_cases o off) as [Hlo|Hlo]; [rewrite !img_write_outside by (left; exact Hlo); apply H|].
+  destruct (N.lt_ge_cases o (off + N.of_nat (length bs))) as [Hhi|Hhi]; [|rewrite !img_write_outside by (right; exact Hhi); apply H].
+  replace o with (off + N.of_nat (N.to_nat (o - off))) by lia. rewrite !img_write_inside by lia. reflexivity.
+Qed.
+
+Lemma apply_events_same : forall evs im im', img_same im im' -> img_same (apply_events im evs) (apply_events im' evs).
+Proof.
+  induction evs as [|e evs IH]; intros im im' H; [exact H|]. destruct e as [o b|]; cbn [apply_events]; apply IH; [|exact H].
+  apply img_write_same. exact H.
+Qed.
+
+Lemma cache_run_writes : forall ws cur dur, writes_only ws -> cache_run cur dur ws = (apply_events cur ws, dur).
+Proof.
+  induction ws as [|e ws IH]; intros cur dur H; [reflexivity|].
+  destruct (H e (or_introl eq_refl)) as (o & b & ->). cbn [cache_run apply_events]. apply IH. intros e' He'. apply H. right. exact He'.
+Qed.
+
+Lemma img_same_trans a b c : img_same a b -> img_same b c -> img_same a c.
+Proof. intros H1 H2 o. rewrite (H2 o). apply H1. Qed.
+
+(* what the cache holds after the whole log: current = the session's image, durable = [s2_durable] *)
+Theorem cache_run_realised : forall ops logs st cur dur dur0,
+  log_realises st ops logs -> img_same (s2_im st) cur -> img_same dur0 dur ->
+  img_same (s2_im (fst (s2_run g acc st ops))) (fst (cache_run cur dur (concat logs))) /\
+  img_same (s2_durable g acc st dur0 ops) (snd (cache_run cur dur (concat logs))).
+Proof.
+  induction ops as [|op ops IH]; intros [|evs logs] st cur dur dur0 R Hc Hd; cbn [log_realises] in R; try contradiction.
+  - cbn [concat cache_run s2_run s2_durable fst snd]. split; assumption.
+  - destruct R as [(ws & -> & Hw & Him) R]. rewrite s2_run_cons_fst. cbn [s2_durable concat].
+    set (st1 := fst (s2_step g acc st op)) in *.
+    rewrite <- app_assoc, FlushProofs.cache_run_app, (cache_run_writes ws cur dur Hw). cbn [fst snd].
+    assert (img_same (s2_im st1) (apply_events cur ws)) as Hc1.
+    { intros o. rewrite (Him o). exact (apply_events_same ws _ _ Hc o). }
+    destruct op as [i o now|i]; cbn [s2_flushes app].
+    + exact (IH logs st1 _ dur dur0 R Hc1 Hd).
+    + cbn [cache_run]. exact (IH logs st1 _ _ (s2_im st1) R Hc1 Hc1).
+Qed.
+
+(* C14 through the cache: after the flush / drop of handle [i] returned (current = durable = the session's image), any
+   realised log of later steps that are not calls on handle [i] leaves a DURABLE image - what a power cut at the end of
+   the log (hence, prefixes being logs too, after any call) preserves - that shows the file's node as flushed *)
+Theorem s2_flushed_durable_cache ops logs st gs es ls i x gh cur :
+  Sess2Inv g st gs es ls -> nth_error (s2_hs st) i = Some x -> nth_error gs i = Some gh -> s2_dirty x = false ->
+  Forall s2op_ok ops -> Forall (not_op_on i) ops -> log_realises st ops logs -> img_same (s2_im st) cur ->
+  In (hnode g (s2_im st) gh) (v_root (abs (snd (cache_run cur cur (concat logs))))).
+Proof.
+  intros SI Hx Hgh Hcl Hf Hn R Hc.
+  destruct (cache_run_realised ops logs st cur cur (s2_im st) R Hc Hc) as [_ Hd].
+  assert (fixed_root_geom (parse_geom (s2_durable g acc st (s2_im st) ops))) as Hgd.
+  { destruct (s2_durable_cases ops st (s2_im st)) as [[E _]|(n & j & _ & _ & _ & E)]; rewrite E.
+    - rewrite (si_geom _ _ _ _ _ SI). exact Hg.
+    - destruct (s2_run_sess_inv g Hg acc (firstn (S n) ops) st gs es ls (Forall_firstn_ _ _ _ Hf) SI) as (gs' & es' & SI').
+      rewrite (si_geom _ _ _ _ _ SI'). exact Hg. }
+  destruct (img_same_abs (fun l => l) _ _ Hgd Hd) as (_ & Habs & _). rewrite Habs.
+  apply (s2_flushed_durable ops st gs es ls i x gh (s2_im st) SI Hx Hgh Hcl Hf Hn).
+  exact (proj2 (proj2 (s2_flushed_survives g Hg acc [] st gs es ls i x gh SI Hx Hgh Hcl (Forall_nil _) (Forall_nil _)))).
+Qed.
+End Durable.
